@@ -57,7 +57,11 @@ ASSUMPTIONS = [
     "executors never mutate the AST they receive",
     "ast.dump (fields only) is the observation of a query AST",
     "CPython 3.12 BaseEventLoop private members (_ready, _scheduled, _run_once)",
-    "thread pre-emption inside library code is not explored (no property asks for it)",
+    "threads are pre-empted between source lines / bytecodes of the package only (not inside "
+    "make_it_sync, asyncio or the standard library); module-level locks of the package are "
+    "simulated, locks held elsewhere are not",
+    "injected asynchronous exceptions are never delivered on a with-header line or the first "
+    "line of a with body (no real one can land between __enter__ / body / __exit__)",
 ]
 REQUIRED_PROBES = {
     "C11": ["probe_failed_derive", "derive_shared", "empty_metadata_made", "exec_sync",
